@@ -2801,6 +2801,16 @@ impl SctpInner {
                     );
                 }
                 buffer.clear();
+            } else if buffer.is_empty() {
+                // A middle/end fragment with no message in progress: the head
+                // of this message was skipped (FORWARD-TSN past an abandoned
+                // B fragment while later fragments were still queued at the
+                // sender). Delivering the tail would fabricate a message.
+                debug!(
+                    "SCTP Reassembly: dropping fragment without a B fragment on stream {}",
+                    stream_id
+                );
+                return Ok(());
             }
             buffer.extend_from_slice(&user_data);
             if e_bit {
